@@ -250,3 +250,5 @@ func (c *Ctx) trail(w []ssa.Instruction) string {
 func sortFuncs(fs []*ssa.Function) {
 	sort.Slice(fs, func(i, j int) bool { return an.FuncKey(fs[i]) < an.FuncKey(fs[j]) })
 }
+
+func sortStrings(s []string) { sort.Strings(s) }
